@@ -636,8 +636,116 @@ pub fn run_c05fold(o: &Opts) -> Report {
         }
     }
     garbage_stream(&mut cx, &mut rng, o.n, "garbage");
+    {
+        // keywords in the wrong role (see `cross_vocabulary_stream`); its own generator state, so that the other streams are unchanged
+        let mut xrng = Rng::new(o.seed ^ 0xC05F_C14);
+        cross_vocabulary_stream(&mut cx, &mut xrng, "cross-vocabulary", o.thorough);
+    }
     parsed_stream(&mut cx, &mut rng, o.n / 4, o.thorough, "parsed", false);
     float_stream(&mut cx, &mut rng, (o.n / 2).max(60));
     let cases = std::mem::take(&mut cx.cases);
     finish(o, "C05F", rep, cases)
+}
+
+// -------------------------------------------------------------------------------------------
+// Cross-vocabulary stream: lexical compounds / statements / sets / atoms whose connecter / copula / brackets / prefix are
+// built from OTHER vocabulary items of the folding format -- a prefix + name (`^go`, `操作go`), a copula used as
+// connecter, a connecter used as copula or prefix, a punctuation, a bracket, two items glued, an item with a name in
+// front or behind.  No lexical parser produces these (keywords are matched against the dictionaries): they are built
+// through the public constructors / struct fields.  Fold must reject them or return a term of the same category (C14),
+// well-formed (C12), without panicking (C05); the model is evaluated on every one of them.
+// -------------------------------------------------------------------------------------------
+fn cross_vocabulary_stream(cx: &mut Ctx, rng: &mut Rng, stream: &str, thorough: bool) {
+    let fms = formats();
+    for fm in &fms {
+        let e = fm.e;
+        let s = |x: &str| x.to_string();
+        let c = &e.compound;
+        let prefixes: Vec<String> = vec![
+            s(e.atom.prefix_word), s(e.atom.prefix_placeholder), s(e.atom.prefix_variable_independent), s(e.atom.prefix_variable_dependent),
+            s(e.atom.prefix_variable_query), s(e.atom.prefix_interval), s(e.atom.prefix_operator),
+        ];
+        let connecters: Vec<String> = vec![
+            s(c.connecter_intersection_extension), s(c.connecter_intersection_intension), s(c.connecter_difference_extension), s(c.connecter_difference_intension),
+            s(c.connecter_product), s(c.connecter_image_extension), s(c.connecter_image_intension), s(c.connecter_conjunction), s(c.connecter_disjunction),
+            s(c.connecter_negation), s(c.connecter_conjunction_sequential), s(c.connecter_conjunction_parallel),
+        ];
+        let copulas: Vec<String> = e.copulas().iter().map(|x| s(x)).collect();
+        let brackets: Vec<String> = vec![
+            s(c.brackets_set_extension.0), s(c.brackets_set_extension.1), s(c.brackets_set_intension.0), s(c.brackets_set_intension.1), s(c.brackets.0), s(c.brackets.1),
+            s(e.statement.brackets.0), s(e.statement.brackets.1),
+        ];
+        let puncts: Vec<String> = vec![s(e.sentence.punctuation_judgement), s(e.sentence.punctuation_goal), s(e.sentence.punctuation_question), s(e.sentence.punctuation_quest)];
+        let names: Vec<String> = if fm.idx == 2 { vec![s("go"), s("甲"), s("1")] } else { vec![s("go"), s("a"), s("1")] };
+        // the pool of keyword-like strings
+        let mut pool: Vec<(String, &str)> = vec![];
+        for p in prefixes.iter().filter(|p| !p.is_empty()) {
+            pool.push((p.clone(), "a prefix"));
+            for n in &names {
+                pool.push((format!("{}{}", p, n), "prefix + name"));
+            }
+        }
+        for (items, role) in [(&connecters, "connecter"), (&copulas, "copula"), (&brackets, "bracket"), (&puncts, "punctuation")] {
+            for k in items.iter() {
+                pool.push((k.clone(), match role { "connecter" => "a connecter", "copula" => "a copula", "bracket" => "a bracket", _ => "a punctuation" }));
+                pool.push((format!("{}{}", k, names[0]), "keyword + name"));
+                pool.push((format!("{}{}", names[1], k), "name + keyword"));
+            }
+        }
+        for _ in 0..(if thorough { 120 } else { 30 }) {
+            let a = rng.pick(&pool).0.clone();
+            let b = rng.pick(&pool).0.clone();
+            pool.push((format!("{}{}", a, b), "two items glued"));
+        }
+        pool.push((names[0].clone(), "a bare name"));
+        pool.push((String::new(), "the empty string"));
+        let w = |n: &str| LTerm::new_atom(e.atom.prefix_word, n);
+        let ph = || LTerm::new_atom(e.atom.prefix_placeholder, "");
+        let (a, b, r) = if fm.idx == 2 { ("甲", "乙", "丙") } else { ("a", "b", "r") };
+        let known_conn: std::collections::HashSet<&String> = connecters.iter().collect();
+        let known_cop: std::collections::HashSet<&String> = copulas.iter().collect();
+        let known_pre: std::collections::HashSet<&String> = prefixes.iter().collect();
+        let mut values: Vec<(LTerm, String)> = vec![];
+        for (k, what) in &pool {
+            // as connecter (arities 1-3, with and without a placeholder), unless it IS a connecter
+            if !known_conn.contains(k) {
+                for items in [vec![w(a)], vec![w(a), w(b)], vec![w(r), w(a), w(b)], vec![w(r), ph(), w(a)]] {
+                    values.push((LTerm::new_compound(k, items), format!("{} as connecter", what)));
+                }
+            }
+            // as copula, unless it IS a copula
+            if !known_cop.contains(k) {
+                values.push((LTerm::new_statement(k, w(a), w(b)), format!("{} as copula", what)));
+                values.push((LTerm::new_statement(k, LTerm::new_compound(c.connecter_product, vec![w(a), w(b)]), LTerm::new_atom(e.atom.prefix_operator, "go")), format!("{} as copula of an operation", what)));
+            }
+            // as atom prefix, unless it IS a prefix
+            if !known_pre.contains(k) {
+                values.push((LTerm::new_atom(k, "n"), format!("{} as atom prefix", what)));
+                values.push((LTerm::new_atom(k, ""), format!("{} as atom prefix, empty name", what)));
+            }
+            // as set brackets: on the left with each real closing bracket, on the right with each real opening bracket
+            for (lb, rb) in [(c.brackets_set_extension.0, c.brackets_set_extension.1), (c.brackets_set_intension.0, c.brackets_set_intension.1)] {
+                if k != lb {
+                    values.push((LTerm::new_set(k, vec![w(a), w(b)], rb), format!("{} as left set bracket", what)));
+                }
+                if k != rb {
+                    values.push((LTerm::new_set(lb, vec![w(a), w(b)], k), format!("{} as right set bracket", what)));
+                }
+            }
+        }
+        cx.rep.hist.0.insert(format!("{}:{}:values", stream, fm.name), values.len() as u64);
+        for (i, (t, what)) in values.into_iter().enumerate() {
+            // bare, and nested inside a real compound / as the subject of a real statement (the error must propagate)
+            let lv = match i % 4 {
+                0 | 1 => LNarsese::Term(t.clone()),
+                2 => LNarsese::Term(LTerm::new_compound(c.connecter_product, vec![w(a), t.clone()])),
+                _ => LNarsese::Sentence(LSentence::new(LTerm::new_statement(copulas[0].clone(), t.clone(), w(b)), e.sentence.punctuation_judgement, "", vec![])),
+            };
+            let res = cx.fold_case(fm, &lv, stream, true);
+            cx.rep.hist.add(format!("{}:{}:{}:{}", stream, fm.name, what, pr_tag(&res)));
+            if i % 8 == 0 {
+                cx.lexcat_case(&t);
+            }
+        }
+    }
 }
